@@ -4,6 +4,8 @@ import (
 	"fmt"
 	"os"
 	"strings"
+
+	"golang.org/x/tools/go/ssa"
 )
 
 func runDump(c *Ctx, what string) {
@@ -46,7 +48,25 @@ func init() {
 		for _, li := range si.Lists {
 			fmt.Printf("list %q var=%p (%T) append=%s feed=%d read=%d other=%d\n", li.Literal, li.Var, li.Var, c.pos(li.Append.Pos()), len(li.FeedLoops), len(li.ReadLoops), len(li.OtherLoops))
 			for _, l := range append(append([]*scanLoop{}, li.FeedLoops...), li.ReadLoops...) {
-				fmt.Printf("    loop in %s head b%d var=%p desc=%v\n", fnName(l.Fn), l.L.Head.Index, l.Var, l.Descending)
+				fmt.Printf("    loop in %s head b%d var=%p desc=%v\n", fnName(l.Fn), l.L.Head.Index, l.Var, l.Desc())
+			}
+		}
+	}
+}
+
+func init() {
+	dumpers["mirror"] = func(c *Ctx) {
+		si := c.scanModel()
+		for _, li := range si.Lists {
+			for _, l := range append(append([]*scanLoop{}, li.FeedLoops...), li.ReadLoops...) {
+				for b := range l.L.Blocks {
+					for _, in := range b.Instrs {
+						if ia, ok := in.(*ssa.IndexAddr); ok {
+							id := c.listID(ia.X)
+							fmt.Printf("%s loop b%d: %s idx=%s idmatch=%v mirror=%v desc=%v phi=%v\n", li.Literal, l.L.Head.Index, ia.String(), ia.Index.String(), id == l.Var, c.mirrorIndex(ia.Index, l), l.Descending, l.IndexPhi)
+						}
+					}
+				}
 			}
 		}
 	}
